@@ -70,12 +70,28 @@ CHECKS = {
 }
 PENDING_REASON = "check not built yet in this session (design in DESIGN.md section 4); not claimed until its machinery exists"
 
+# dimensions added after the table was written (seed rounds 3/4); appended to the level text
+EXTRA = {
+ "C05": "; CLI plumbing slice: 39 globs x REUSE.toml at ./, d/, d/e/ over a tree with prefix-sharing sibling directories (dd/, d2/, d-e/, d/e2/)",
+ "C06": "; eleven trees over the whole bundled SPDX list (used and/or provided x txt, md, no extension, subdirectory, ID+.txt)",
+ "C07": "; S3 includes commented information-dropping templates",
+ "C10": "; templates that carry a fixed licence / an extra fixed notice x every style x year option x target",
+ "C11": "; information-dropping templates include pre-commented ones",
+ "C14": "; root directory named with glob characters ('p[1]', '[!a] b', 'p*x' next to 'pyx', 'p?x', '{a,b}', backslash) x four cwd/spelling cells x every tree",
+ "C16": "; 18 odd/broken dep5 files; 16 .gitmodules and 9 .gitignore byte shapes inside a Git repository under every subcommand",
+ "C17": "; 60 field variants incl. Copyright values starting on the continuation line and '.'-separated",
+ "C18": "; File sections also compared with the specification model of the tree (independent of lint's walk)",
+ "C20": "; every holder x 2 year forms x 2 prefixes read back from inside a comment of every style",
+}
+
+
 def main():
     checks, na = [], []
     props = [json.loads(l)["id"] for l in open(f"{V}/properties.jsonl")]
     for pid in props:
         if pid in CHECKS and os.path.exists(f"{V}/mc/checks/{pid.lower()}.py"):
             cat, tech, text, note, ref = CHECKS[pid]
+            text += EXTRA.get(pid, "")
             checks.append({
                 "property_id": pid,
                 "quick_cmd": f"/venv/bin/python -m mc.run {pid} --tier quick",
